@@ -92,7 +92,9 @@ def _rhs(b):
 def m_big_arith(ex, a, callee, canon):
     x, y = a[0].t, _rhs(a[1]).t
     op = canon.rsplit("::", 1)[1]
-    return Big({"add": x + y, "sub": x - y, "mul": x * y}[op])
+    if op == "mul":
+        return Big(bigmul(x, y))
+    return Big({"add": x + y, "sub": x - y}[op])
 
 
 @model(r"^<BigInt as (Div|Rem)(<.*>)?>::(div|rem)$")
@@ -101,7 +103,7 @@ def m_big_divrem(ex, a, callee, canon):
     if ex.decide(y == 0):
         raise PathPanic("attempt to divide by zero (num_bigint)")
     # num-bigint: truncated division, remainder takes the sign of the dividend (as bvsdiv / bvsrem)
-    return Big(x / y if canon.endswith("div") else z3.SRem(x, y))
+    return Big(bigdiv(x, y) if canon.endswith("div") else bigrem(x, y))
 
 
 @model(r"^<BigInt as Neg>::neg$")
@@ -114,6 +116,34 @@ def m_big_cmp(ex, a, callee, canon):
     x, y = deref(a[0]).t, deref(a[1]).t
     op = canon.rsplit("::", 1)[1]
     return Bool({"eq": x == y, "ne": x != y, "lt": x < y, "le": x <= y, "gt": x > y, "ge": x >= y}[op])
+
+
+def _uf2(name):
+    return z3.Function(name, z3.BitVecSort(BW), z3.BitVecSort(BW), z3.BitVecSort(BW))
+
+
+def bigmul(x, y):
+    """num-bigint's multiplication is external code: an uninterpreted (commutative: arguments ordered) function shared with the reference,
+    so the query checks WHICH numbers are multiplied and how the product is encoded, not the multiplier; constants are folded"""
+    sx, sy = z3.simplify(x), z3.simplify(y)
+    if z3.is_bv_value(sx) or z3.is_bv_value(sy):
+        return x * y
+    a, b = (x, y) if x.get_id() <= y.get_id() else (y, x)
+    return _uf2("BIGMUL")(a, b)
+
+
+def bigdiv(x, y):
+    sy = z3.simplify(y)
+    if z3.is_bv_value(sy):
+        return x / y
+    return _uf2("BIGDIV")(x, y)
+
+
+def bigrem(x, y):
+    sy = z3.simplify(y)
+    if z3.is_bv_value(sy):
+        return z3.SRem(x, y)
+    return _uf2("BIGREM")(x, y)
 
 
 MAX_SHIFT = 40
@@ -204,9 +234,11 @@ def m_vec_resize(ex, a, callee, canon):
     v = p.get()
     if isinstance(v, Bytes):
         items = ex.seq_items(v.s)
-        k = ex.concretize(n.t, range(0, 64))
-        if items is None or k is None:
-            raise PathBound("Vec::resize outside bounds (length above 63)")
+        if items is None:
+            raise Unsupported("Vec::resize on symbolic-length bytes")
+        if not ex.decide(z3.ULE(n.t, z3.BitVecVal(9, 64))):
+            raise PathBound("Vec::resize outside bounds (length above 9)")
+        k = ex.concretize(n.t, range(0, 10))
         items = list(items[:k]) + [val.t] * max(0, k - len(items))
         p.set(Bytes(seq_of(items)))
         return UNIT
@@ -262,3 +294,20 @@ def m_sha1(ex, a, callee, canon):
 @model(r"^checksig$|^multisig$")
 def m_checksig(ex, a, callee, canon):
     raise PathBound("signature opcodes are outside this query")
+
+
+@model(r"^Vec::splice$")
+def m_vec_splice(ex, a, callee, canon):
+    p, rng, repl = a
+    v = p.get()
+    lo, hi = rng.f[0].concrete(), rng.f[1].concrete()
+    if not isinstance(v, ListV) or lo is None or hi is None:
+        raise Unsupported("Vec::splice")
+    if lo > hi or hi > len(v.f):
+        raise PathPanic("Vec::splice: range out of bounds")
+    new = repl.f if isinstance(repl, ListV) else [x for x in repl.items] if isinstance(repl, IterV) else None
+    if new is None:
+        raise Unsupported(f"splice replacement {repl!r}")
+    removed = v.f[lo:hi]
+    v.f[lo:hi] = [clone(x) for x in new]
+    return IterV(removed, False)
